@@ -343,6 +343,11 @@ func run(c *harness.Ctx, i int) {
 			{"backslash", "/..\\outside\\secret.caibx"},
 		}
 	}
+	// side doors: paths that handlers registered next to desync's own on the same mux would answer (profiling, expvar,
+	// metrics): whatever sits there answers in front of the authorization check
+	for _, sd := range []string{"/debug/pprof/", "/debug/pprof/cmdline", "/debug/pprof/goroutine?debug=1", "/debug/pprof/heap?debug=1", "/debug/vars", "/metrics", "/healthz", "/status", "/debug/requests", "/debug/events"} {
+		paths = append(paths, pathCase{"side-door", sd})
+	}
 	methods := []string{"GET", "HEAD", "PUT", "PUT-bad", "PUT-bad", "POST", "DELETE", "PATCH", "OPTIONS"}
 	auths := authCases()
 	nreq := 60
